@@ -1,21 +1,21 @@
-\* exhaustive, repaired flags: 2 databases x 1 collection name x 2 incarnations x 1 partition name x 1 incarnation, all states; source time 10 min behind / 10 min ahead of the local clock
+\* random large catalogs (tlc -simulate): the PlanSim universe x a block of 1500 filler records in any gap of the key order of either record prefix
 SPECIFICATION Spec
 CHECK_DEADLOCK FALSE
-INVARIANTS TypeOK ContractMilvus ContractKafka
+INVARIANTS PlanOut
 CONSTANTS
   DBs <- TwoDBs
-  CNames <- OneC
-  PNames <- OneP
+  CNames <- TwoCs
+  PNames <- TwoPs
   MaxInc = 2
-  MaxPInc = 1
+  MaxPInc = 2
   DbStates = {"live", "goneDown", "goneBoth"}
   CStates = {"creating", "created", "dropping", "dropped", "tombstone"}
   PStates = {"creating", "created", "dropping", "dropped", "tombstone"}
   Concrete <- NamesPlain
   Now = 100
-  Skews = {"behind", "ahead"}
-  FillGaps = "off"
-  FillN = 0
+  Skews = {"behind", "equal", "window", "ahead", "far"}
+  FillGaps = "all"
+  FillN = 1500
   Page = 1000
   ListTruncated = FALSE
   ClampLocal = FALSE
